@@ -15,6 +15,7 @@
   * the alias table stays flat under the insertion the filter makes for a pruned commit.
 -/
 import Frrs.Commit
+import Frrs.Filter
 import Frrs.Sim.Sim
 namespace Frrs.Bridge
 open Frrs
@@ -54,7 +55,7 @@ theorem classify_is_dedup (emitted : Nat → Bool) (alias : AliasMap) :
           = .dropped :: classifyParents emitted alias ps seen := by
         simp [classifyParents, hmk, he]
       rw [this]
-      simp [keptMarks, List.filter_cons, he, ih seen hrest]
+      simp [keptMarks, he, ih seen hrest]
     | true =>
       by_cases hs : resolveCanonical alias mk ∈ seen
       · have hc : seen.contains (resolveCanonical alias mk) = true := by simpa using hs
@@ -62,14 +63,14 @@ theorem classify_is_dedup (emitted : Nat → Bool) (alias : AliasMap) :
             = .dropped :: classifyParents emitted alias ps seen := by
           simp [classifyParents, hmk, he, hs]
         rw [this]
-        simp [keptMarks, List.filter_cons, he, Sim.dedupAux, hs, ih seen hrest]
+        simp [keptMarks, he, Sim.dedupAux, hs, ih seen hrest]
       · have hc : seen.contains (resolveCanonical alias mk) = false := by simpa using hs
         have : classifyParents emitted alias (p :: ps) seen
             = .canonical (resolveCanonical alias mk) p.isMerge
                 :: classifyParents emitted alias ps (resolveCanonical alias mk :: seen) := by
           simp [classifyParents, hmk, he, hs]
         rw [this]
-        simp [keptMarks, List.filter_cons, he, Sim.dedupAux, hs, ih _ hrest]
+        simp [keptMarks, he, Sim.dedupAux, hs, ih _ hrest]
 
 /-- `first_parent_mark` is the head of the kept marks and `kept` their number. -/
 theorem first_and_count (emitted : Nat → Bool) (alias : AliasMap) :
@@ -206,6 +207,59 @@ theorem default_prune_matches_fstep {α : Type} (fch : List α) (q : Nat) (rest 
 theorem root_always_kept (hasChanges : Bool) (mk : Option Nat) (kept : Nat) (wasMerge isDeg : Bool)
     (o : PruneOpts) : shouldKeepCommit hasChanges none mk kept wasMerge isDeg o = true := by
   simp [shouldKeepCommit]
+
+/-! ### the same, at the place where the main loop uses it -/
+
+/-- **At the end of every commit of the byte-level loop** (`Filter.commitEndInfo`, the state the prune decision and the
+    alias are computed from): if the buffered commit has parent lines and each carries a mark, `first_parent_mark` and the
+    kept-parent count are head and length of the de-duplicated canonical emitted marks of its parents — for every filter
+    state, whatever was read before. -/
+theorem commitEnd_parents (s : FState)
+    (hne : (parentsOf s.segs.reverse).isEmpty = false) (hm : AllMarked (parentsOf s.segs.reverse)) :
+    let ks := Sim.dedupAux [] (((marksOf (parentsOf s.segs.reverse)).map (resolveCanonical s.alias)).filter
+                (fun m => s.emitted.contains m))
+    (commitEndInfo s).firstParent = ks.head? ∧ (commitEndInfo s).kept = ks.length := by
+  intro ks
+  have hfc := first_and_count (fun m => s.emitted.contains m) s.alias (parentsOf s.segs.reverse) [] hm
+  have hcl := classify_is_dedup (fun m => s.emitted.contains m) s.alias (parentsOf s.segs.reverse) [] hm
+  unfold commitEndInfo
+  simp only [hne, Bool.false_eq_true, if_false, finalizeParents]
+  rw [hcl] at hfc
+  exact hfc
+
+/-- a commit without parent lines reaches the decision as a root: no first parent, nothing kept — and is therefore kept
+    (`root_always_kept`) -/
+theorem commitEnd_root (s : FState) (h : (parentsOf s.segs.reverse).isEmpty = true) :
+    (commitEndInfo s).firstParent = none ∧ (commitEndInfo s).kept = 0 := by
+  unfold commitEndInfo
+  simp [h]
+
+/-- on a one-level table a canonical mark is not itself aliased -/
+theorem canonical_is_root (m : AliasMap) (hflat : Flat m) (k : Nat) : m.get (resolveCanonical m k) = none := by
+  rw [resolve_is_canon m hflat k]
+  unfold Sim.canon simState
+  show m.get ((m.get k).getD k) = none
+  cases hk : m.get k with
+  | none => rw [Option.getD_none]; exact hk
+  | some v => rw [Option.getD_some]; exact hflat k v hk
+
+/-- **The alias the loop records for a pruned commit keeps the table one level deep** — provided the commit's mark is
+    fresh (no alias points at it, and it is not its own parent's canonical mark: what `git fast-export` guarantees by
+    numbering marks in stream order). So on exporter streams `resolve_canonical_mark` is always the single look-up of
+    the simulation. -/
+theorem aliasDropped_keeps_flat (s : FState) (e : CommitEnd) (hflat : Flat s.alias)
+    (hfresh : ∀ om pm, s.commitMark = some om → e.firstParent = some pm →
+      (∀ k v, s.alias.get k = some v → v ≠ om) ∧ om ≠ resolveCanonical s.alias pm) :
+    Flat (aliasDropped s e).alias := by
+  unfold aliasDropped
+  split
+  · rename_i om pm hom hpm
+    obtain ⟨h1, h2⟩ := hfresh om pm hom hpm
+    have hins := flat_insert s.alias hflat om (resolveCanonical s.alias pm) (canonical_is_root s.alias hflat pm) h2 h1
+    by_cases hc : s.emitted.contains (resolveCanonical s.alias pm) = true
+    · simp only [hc, if_true, FState.emit]; exact hins
+    · simp only [hc, if_false]; exact hflat
+  · exact hflat
 
 /-! ### non-vacuity -/
 
